@@ -38,8 +38,8 @@ Definition followup : code := CCons (IEv 776%N) CNil.
 Record pred := mkPred { p_kind : nat; p_tok : N; p_log : list N; p_idle : list nat;
                         p_fkind : nat; p_ftok : N; p_flog : list N; p_fidle : list nat }.
 
-Definition run_case (fx : bool) (c : tcase) : pred :=
-  let cf := mkCfg fx (c_k c) (c_clr c) None in
+Definition run_case (c : tcase) : pred :=
+  let cf := mkCfg (c_k c) (c_clr c) None in
   let s0 := match c_mode c with
             | 0 => idle0
             | 1 => interrupt 999%N idle0
@@ -63,12 +63,9 @@ Definition matches (c : tcase) (p : pred) : bool :=
   && Nat.eqb (o_fkind c) (p_fkind p) && N.eqb (o_ftok c) (p_ftok p) && leqb N.eqb (o_flog c) (p_flog p)
   && leqb Nat.eqb (o_fidle c) (p_fidle p).
 
-(* verdict (DESIGN 2.3): impl = S passes; impl <> S but impl = I inside the region of an open finding
-   (the program resumes a generator / async function or iterates an iterator with a script return())
-   is the recorded defect; everything else is a mismatch.  Stored replays of the findings are strict. *)
-Definition check_case (c : tcase) : bool :=
-  (matches c (run_case true c) && o_sp0 c)
-  || (negb (c_strict c) && negb (no_gen_c (c_prog c)) && matches c (run_case false c)).
+(* goja's frame discipline now is the specification (F16, F20 repaired): one model, one verdict.  Behaviour that
+   still deviates (open findings) shows up as a mismatch and is classified by the narrow predicates. *)
+Definition check_case (c : tcase) : bool := matches c (run_case c) && o_sp0 c.
 
 Fixpoint mismatch_from (i : N) (cs : list tcase) : list N :=
   match cs with
@@ -77,4 +74,4 @@ Fixpoint mismatch_from (i : N) (cs : list tcase) : list N :=
   end.
 Definition mismatch_ids := mismatch_from 0%N.
 
-Definition expected (c : tcase) := (run_case true c, run_case false c).
+Definition expected (c : tcase) := run_case c.
